@@ -256,7 +256,8 @@ def generate(prop, rng, tier):
           # the user keeps ONE DataFrame object per mesh and hands it to every call (and changes it in place
           # between calls), or builds a fresh frame for every call
           "kept_frames": rng.random() < 0.5,
-          "level_order": rng.choice(["en", "en", "ne"])}
+          "level_order": rng.choice(["en", "en", "ne"]),
+          "interleave": rng.randint(1, 10 ** 6) if rng.random() < 0.25 else None}
     mode = rng.random()
     cand = [i for i, o in enumerate(ops) if o["op"] not in ("read", "set_attr", "mutate_mesh")]
     if mode < 0.7 and cand:
@@ -273,9 +274,10 @@ def generate(prop, rng, tier):
 class Frames:
     """Frame policy of a run: fresh frame per call, or one kept object per mesh that is mutated in place."""
 
-    def __init__(self, kept, level_order):
+    def __init__(self, kept, level_order, interleave=None):
         self.kept = kept
         self.level_order = level_order
+        self.interleave = interleave
         self.cache = {}
 
     def get(self, key, mesh, sabotage=None):
@@ -286,6 +288,22 @@ class Frames:
         return self.cache[key]
 
     def _order(self, df):
+        if self.interleave:
+            # rows of different elements interleaved; the node order inside every element is kept
+            import random as _r
+            rr = _r.Random(int(self.interleave))
+            eids = [int(e) for e in df.index.get_level_values("element_id")]
+            queues = {}
+            for pos, e in enumerate(eids):
+                queues.setdefault(e, []).append(pos)
+            order = []
+            live = [e for e in queues]
+            while live:
+                e = rr.choice(live)
+                order.append(queues[e].pop(0))
+                if not queues[e]:
+                    live.remove(e)
+            df = df.iloc[order]
         if self.level_order == "ne":
             df = df.swaplevel()            # levels are identified by name: (node_id, element_id) is as valid
         return df
@@ -726,7 +744,9 @@ def _run(trace, out, log, d, seam):
         return
     model = ref.Model()
     faults = trace.get("faults")
-    FRAMES[0] = Frames(bool(trace.get("kept_frames")), trace.get("level_order", "en"))
+    FRAMES[0] = Frames(bool(trace.get("kept_frames")), trace.get("level_order", "en"), trace.get("interleave"))
+    if trace.get("interleave"):
+        out.count("probe:interleaved_element_rows")
     if trace.get("level_order") == "ne":
         out.count("probe:node_element_level_order")
     for k, op in enumerate(ops):
